@@ -664,4 +664,9 @@ inside:
 #[cfg(feature = "verif-hooks")]
 pub mod verif_hooks {
   pub use super::nth_child::verif_hooks as nth_child;
+  pub use super::nth_child::NthChild;
+  pub use super::range::RangeMatcher;
+  pub use super::referent_rule::{ReferentRule, RuleRegistration};
+  pub use super::relational_rule::{Follows, Has, Inside, Precedes};
+  pub use super::stop_by::StopBy;
 }
